@@ -6,6 +6,7 @@ def step (line : String) : String :=
   | "c20" :: args => Arl.run args
   | "c17" :: args => Interp.run args
   | "c16" :: args => Val2idx.run args
+  | "c15" :: args => Registry.run args
   | _ => "err bad-stream"
 
 partial def loop (h : IO.FS.Stream) : IO Unit := do
